@@ -400,6 +400,48 @@ def repo_tests_as_traces(ctx, traces, parsed_l, ok_l, meta, nodoc_l):
     ctx.notes['repo_test_streams'] = n
 
 
+def svg_plots(ctx, rng, traces, parsed_l, ok_l, meta):
+    """SVG log plots (PlotReadLIS on generated log passes, titles with markup / quotes / control characters): call streams
+    and documents like the other writers."""
+    import random
+    from . import c19
+    from TotalDepth.LIS.core import File, FileIndexer, LogiRec, Mnem, EngVal
+    from TotalDepth.util.plot import Plot
+    wd = ctx.wdir('svg')
+    film_lr = LogiRec.LrTableRead(c19.single_lr_file(c19.FILM))
+    titles = ['plain title', 'a<b & "c"', "it's <!-- not a comment -->", 'tab\there', 'ctl\x01x', 'caf\xe9 \u4e2d', ']]>', '&amp;']
+    for t in range(ctx.pick(6, 40)):
+        curves = [dict(mnem=b'C0  ', outp=b'TEST', trac=rng.choice([b'T1  ', b'T23 ']), dest=b'2   ', mode=rng.choice([b'SHIF', b'WRAP']), le=-40.0, re=40.0)]
+        n = rng.choice([5, 12])
+        data, xs, cols = c19.build_log_pass(rng, [b'TEST'], [dict(kind=rng.choice(['ramp', 'inside', 'spiky']), absent=rng.random() < 0.5)], [(-40.0, 40.0)], n, rng.random() < 0.5)
+        title = rng.choice(titles)
+        m = dict(writer='Plot.PlotReadLIS.plotLogPassLIS (SVG)', title=title, frames=n)
+        ctx.case(('svg', t), True)
+        fp = os.path.join(wd, 'p%d.svg' % t)
+        try:
+            plotter = Plot.PlotReadLIS(film_lr, LogiRec.LrTableRead(c19.single_lr_file(c19.pres_bytes(curves))))
+            f = File.FileRead(io.BytesIO(data), 'lp', keepGoing=False)
+            lp = list(FileIndexer.FileIndex(f).genLogPasses())[0].logPass
+            with xmltrace.record_xml_streams() as recs:
+                plotter.plotLogPassLIS(f, lp, EngVal.EngVal(xs[0], b'FEET'), EngVal.EngVal(xs[-1], b'FEET'), Mnem.Mnem(b'2   '), fp, frameStep=1, title=title)
+            doc = open(fp, encoding='utf-8', errors='surrogatepass').read()
+            os.remove(fp)
+        except Exception as e:
+            ctx.fail('plotLogPassLIS raised %s: %s for title %r' % (type(e).__name__, e, title), m, sig=dict(kind='svg-exception', error=type(e).__name__))
+            continue
+        doc = known_f7(ctx, doc, m)
+        ok, err, pev = xmltrace.parse_events(doc)
+        if ok:
+            ok2, why = xmltrace.lxml_ok(doc)
+            if not ok2:
+                ok, err = False, 'lxml: ' + why
+        for r_ in recs:
+            traces.append(r_.ev)
+            parsed_l.append(pev)
+            ok_l.append(ok)
+            meta.append(dict(m, parse_error=err, calls=r_.calls))
+
+
 def run(ctx):
     repo.setup()
     from ..core import quiet_logging
@@ -564,6 +606,7 @@ def run(ctx):
         os.remove(pin)
         os.remove(pout)
     real_writers_rp66_lis(ctx, rng, traces, parsed_l, ok_l, meta)
+    svg_plots(ctx, rng, traces, parsed_l, ok_l, meta)
     nodoc_l = [False] * len(traces)
     repo_tests_as_traces(ctx, traces, parsed_l, ok_l, meta, nodoc_l)
     if traces:
